@@ -290,3 +290,34 @@ func VerifC09_Sequence() {
 		verifrt.Assert(buf[j] == a.image(off+j), "sequence.byte")
 	}
 }
+
+// The same around the boundary between two member files (end of the first - with or without sector
+// padding - and first byte of the second): reads that revisit, cross or meet at the boundary.
+func VerifC09_SequenceBoundary() {
+	verifFreshImage = true
+	a := verifAbstractVISO(2, false, 0)
+	verifFreshImage = false
+	verifrt.Assume(a.size[0] >= 16)
+	verifrt.Assume(a.size[1] >= 16)
+	total := int64(a.v.totalSize)
+	labels := [3]string{"op0", "op1", "op2"}
+	for _, l := range labels {
+		off := verifrt.Int64(l + ".off")
+		n := verifrt.Int(l + ".n")
+		verifrt.Assume(off >= a.start[1]-1)
+		verifrt.Assume(off <= a.start[1]+1)
+		verifrt.Assume(n >= 1)
+		verifrt.Assume(n <= 2)
+		buf := verifrt.Bytes(l+".buf", n)
+		got, err := a.v.ReadAt(buf, off)
+		want := int64(n)
+		if total-off < want {
+			want = total - off
+		}
+		verifrt.Assert(int64(got) == want && (err == nil || err == io.EOF), "boundary.count")
+		j := verifrt.Int64(l + ".j")
+		verifrt.Assume(j >= 0)
+		verifrt.Assume(j < int64(got))
+		verifrt.Assert(buf[j] == a.image(off+j), "boundary.byte")
+	}
+}
